@@ -100,7 +100,7 @@ theorem C01_field_kind (P : Params) (n : String) :
     (∀ t, normField P (n, .time t) = (n, .time t)) ∧
     (∀ x, normField P (n, .val (.exact x)) = (n, .val (.exact (floatToStr P x)))) ∧
     (∀ a b, normField P (n, .val (.interval a b)) = (n, .val (.interval (floatToStr P a) (floatToStr P b)))) ∧
-    (∀ p, normField P (n, .pos (.point p)) = (n, .pos (.point ⟨floatToStr P p.x, floatToStr P p.y⟩))) ∧
+    (∀ p, normField P (n, .pos (.point p)) = (n, .pos (.point ⟨floatToStr P p.x, floatToStr P p.y, p.z.map (floatToStr P)⟩))) ∧
     (∀ ids, normField P (n, .pos (.lanelets ids)) = (n, .pos (.lanelets ids))) ∧
     (∀ s, ∃ s', normField P (n, .pos (.region s)) = (n, .pos (.region s'))) :=
   ⟨fun _ => rfl, fun _ => rfl, fun _ _ => rfl, fun _ => rfl, fun _ => rfl, fun _ => ⟨_, rfl⟩⟩
@@ -177,7 +177,7 @@ theorem C01_initial_defaults (cfg : Cfg) (C : List String) (Cs : List (List Stri
       C.map (fun a => (a, (lookupField a (s.fields.map (normField cfg.P))).getD (defaultOf a))) := by
   simp only [normInitial, hc]
 
-theorem C01_default_values : defaultOf "position" = .pos (.point ⟨"0.0", "0.0"⟩) ∧ defaultOf "velocity" = .val (.exact "0.0")
+theorem C01_default_values : defaultOf "position" = .pos (.point ⟨"0.0", "0.0", none⟩) ∧ defaultOf "velocity" = .val (.exact "0.0")
     ∧ defaultOf "acceleration" = .val (.exact "0.0") ∧ defaultOf "yaw_rate" = .val (.exact "0.0")
     ∧ defaultOf "slip_angle" = .val (.exact "0.0") ∧ defaultOf "orientation" = .val (.exact "0.0") := by
   refine ⟨?_, ?_, ?_, ?_, ?_, ?_⟩ <;> rfl
@@ -249,11 +249,11 @@ theorem C01_witness_virtual (cfg : Cfg) (s : Sign) : ((signE cfg).norm s).virtua
 theorem C01_dynamic_shape_kept (P : Params) (l w o : Real) (c : Pt) :
     normShape1 P true (.rect l w o c) =
       .rect (decimalToStr P l) (decimalToStr P w) (if isZeroRepr o then "0.0" else decimalToStr P o)
-        (if isZeroRepr c.x && isZeroRepr c.y then zeroPt else ⟨floatToStr P c.x, floatToStr P c.y⟩) := by
+        (if isOrigin c then zeroPt else ⟨floatToStr P c.x, floatToStr P c.y, none⟩) := by
   simp only [normShape1, rectE, ECodec.ofKids, Codec.pair, Codec.child, ECodec.ofText, Prim.decPlain, orientC, centerC,
     Codec.optChild, Bool.not_true, Bool.false_or, id]
-  cases h1 : isZeroRepr o <;> cases h2 : (isZeroRepr c.x && isZeroRepr c.y) <;> simp [ptE, ECodec.ofKids, Codec.iso, Codec.pair, Codec.child,
-    ECodec.ofText, Prim.dec]
+  cases h1 : isZeroRepr o <;> cases h2 : isOrigin c <;> simp [ptE, ptKidsC, ECodec.ofKids, Codec.iso, Codec.pair, Codec.child,
+    Codec.optional, ECodec.ofText, Prim.dec]
 
 /-! ## norm_close, in one piece -/
 
@@ -381,7 +381,7 @@ theorem C01_realCfg_ok (d : Nat) : CfgOk (realCfg d) ∧ (realCfg d).classes ≠
 
 /-- a state as a trajectory carries it (KS model, one interval value) is well-formed in the sense of `okState` -/
 example : okState (realCfg 4).P false
-    ⟨[("time_step", .time (.exact 3)), ("position", .pos (.point ⟨"1.23456", "-0.5"⟩)), ("steering_angle", .val (.exact "0.01")),
+    ⟨[("time_step", .time (.exact 3)), ("position", .pos (.point ⟨"1.23456", "-0.5", none⟩)), ("steering_angle", .val (.exact "0.01")),
       ("velocity", .val (.interval "9.87654321" "10.0")), ("orientation", .val (.exact "1e-05"))]⟩ := by
   refine ⟨by decide, ?_⟩
   intro f hf
@@ -405,24 +405,35 @@ example : truncChars 4 "-12.3456789".toList = "-12.3456".toList := by decide
 /-- a document with a lanelet (adjacent reference, stop line with points), a traffic light and an environment obstacle with a
     shape group meets `Doc.Strict` -/
 example : Doc.Strict (realCfg 4)
-    ⟨[⟨1, ⟨[⟨"0.0", "3.5"⟩, ⟨"10.0", "3.5"⟩], "solid"⟩, ⟨[⟨"0.0", "0.0"⟩, ⟨"10.0", "0.0"⟩], "dashed"⟩, [], [2], some ⟨2, true⟩, none,
-        some ⟨some (⟨"10.0", "3.5"⟩, ⟨"10.0", "0.0"⟩), "solid", [], [7]⟩, ["urban"], ["car"], [], [], [7]⟩],
-     [], [⟨7, some ⟨[⟨30, "red"⟩, ⟨5, "green"⟩], 0⟩, some ⟨"9.99", "-0.96"⟩, "leftRight", false⟩], [], [],
+    ⟨[⟨1, ⟨[⟨"0.0", "3.5", some "0.25"⟩, ⟨"10.0", "3.5", some "0.5"⟩], "solid"⟩, ⟨[⟨"0.0", "0.0", none⟩, ⟨"10.0", "0.0", none⟩], "dashed"⟩,
+        [], [2], some ⟨2, true⟩, none,
+        some ⟨some (⟨"10.0", "3.5", none⟩, ⟨"10.0", "0.0", none⟩), "solid", [], [7]⟩, ["urban"], ["car"], [], [], [7]⟩],
+     [], [⟨7, some ⟨[⟨30, "red"⟩, ⟨5, "green"⟩], 0⟩, some ⟨"9.99", "-0.96", none⟩, "leftRight", false⟩], [], [],
      [],
-     [], [⟨11, "building", .group [.circ "1.0" ⟨"1.0", "2.0"⟩, .poly []]⟩], []⟩ := by
-  constructor <;> intro x hx <;> simp only [List.mem_cons, List.mem_singleton, List.not_mem_nil, or_false] at hx
+     [], [⟨11, "building", .group [.circ "1.0" ⟨"1.0", "2.0", none⟩, .poly []]⟩], []⟩ := by
+  constructor <;> intro x hx <;> simp only [List.mem_cons, List.not_mem_nil, or_false] at hx
   · subst hx
     refine ⟨?_, ?_, by decide, ?_⟩
     · intro a ha; cases ha; decide
     · intro a ha; cases ha
-    · intro s hs; cases hs; simp
+    · intro s hs; cases hs; exact ⟨_, _, rfl, rfl, rfl⟩
   · subst hx
-    refine ⟨by decide, ?_⟩
-    intro c hc; cases hc; decide
+    refine ⟨by decide, ?_, ?_⟩
+    · intro p hp; cases hp; rfl
+    · intro c hc; cases hc; decide
   · subst hx
     refine ⟨by decide, ?_⟩
     intro s hs
-    simp only [List.mem_cons, List.mem_singleton, List.not_mem_nil, or_false] at hs
+    simp only [List.mem_cons, List.not_mem_nil, or_false] at hs
     rcases hs with rfl | rfl
-    · intro h; cases h
-    · trivial
+    · exact ⟨rfl, fun h => by cases h⟩
+    · intro v hv; cases hv
+
+/-- an off-centre, rotated rectangle and a centred one ("0.0") are strict shapes of a dynamic obstacle -/
+example : (Shape.one (.rect "4.5" "1.8" "-1.125" ⟨"35.6455", "2.125", none⟩)).Strict true ∧
+    (Shape.one (.rect "4.5" "1.8" "0.0" ⟨"0.0", "0.0", none⟩)).Strict true := by
+  constructor
+  · exact ⟨rfl, fun _ => ⟨by decide, fun h => absurd h (by decide)⟩⟩
+  · exact ⟨rfl, fun _ => ⟨fun _ => rfl, fun _ => rfl⟩⟩
+
+end CR.X
